@@ -148,6 +148,13 @@ class Models05(MC.MarshalModels):
 
 
 # ----------------------------------------------------------------------------------- bounded part
+WALL_S = 20          # per decoded input; the hostile inputs of the bounded part decode in milliseconds on the unchanged tree
+
+
+class WallClock(BaseException):
+    pass
+
+
 class Budget(BaseException):
     # not an Exception: code under test that catches Exception (to retry, to translate errors) must not swallow the budget
     pass
@@ -163,6 +170,14 @@ def steps_of(fn, limit):
             if n[0] > limit:
                 raise Budget()
         return tracer
+    # wall clock as well: a step that is one interpreted line may be a library call that does not return (a regular
+    # expression backtracking exponentially)
+    import signal
+
+    def _late(signum, frame):
+        raise WallClock()
+    old_h = signal.signal(signal.SIGALRM, _late)
+    signal.setitimer(signal.ITIMER_REAL, WALL_S, 1)
     old = sys.gettrace()
     sys.settrace(tracer)
     try:
@@ -171,12 +186,17 @@ def steps_of(fn, limit):
             out = 'returned'
         except Budget:
             out = 'BUDGET'
+        except WallClock:
+            out = 'BUDGET'
+            n[0] = -1
         except RecursionError:
             out = 'RecursionError'
         except Exception as e:
             out = type(e).__name__
     finally:
         sys.settrace(old)
+        signal.setitimer(signal.ITIMER_REAL, 0)
+        signal.signal(signal.SIGALRM, old_h)
     return n[0], out
 
 
@@ -241,6 +261,30 @@ def budget_for(nbytes, nsig):
     return 4000 + 60 * (nsig + 1) ** 2 + (400 + 40 * nsig) * nbytes
 
 
+def long_name_cases():
+    """valid messages naming long paths / interfaces / members / bus names in the header and in the body, then the same bytes with
+    ONE character of such a name replaced by a character that does not belong there (at its end, in its middle): rejected or
+    decoded, within the budget"""
+    from txdbus import message
+    long_path = '/org/freedesktop/' + 'a' * 48 + '/' + 'b_' * 20 + '/c'
+    long_if = 'org.' + 'x' * 60 + '.' + 'Y' * 60 + '.Z'
+    base = [message.MethodCallMessage(long_path, 'M' * 60, interface=long_if, destination='org.' + 'd' * 80 + '.e', signature='oaoa{so}',
+                                      body=[long_path, [long_path, long_path + '/d'], {'k': long_path}]).rawMessage,
+            message.SignalMessage(long_path, 'S' * 40, long_if, signature='(so)', body=[('t', long_path)]).rawMessage,
+            message.ErrorMessage(long_if, 5, destination=':1.' + '9' * 60, signature='o', body=[long_path]).rawMessage]
+    out = []
+    for raw in base:
+        for name in (long_path, long_if, 'M' * 60, 'S' * 40, 'org.' + 'd' * 80 + '.e'):
+            nb = name.encode('ascii')
+            start = raw.find(nb)
+            while start >= 0:
+                for pos in (start + len(nb) - 1, start + len(nb) // 2, start + 1):
+                    for bad in (b'-', b'.', b' ', b'/', b'\xff', b'\0', b'!', b'\n'):
+                        out.append(raw[:pos] + bad + raw[pos + 1:])
+                start = raw.find(nb, start + 1)
+    return base + out
+
+
 def valid_messages(rnd):
     from txdbus import message
     out = []
@@ -272,6 +316,17 @@ def growth_cases():
         elems = b''.join(b'\x01' + (b'\0' * 7 if i < nel - 1 else b'') for i in range(nel))
         body = struct.pack('<I', len(elems)) + b'\0' * 4 + elems
         arr = [[1, W.Variant('o', '/o')], [3, W.Variant('s', 'M')], [8, W.Variant('s', sig)]]
+        head = W.encode('yyyyuua(yv)', [ord('l'), 1, 0, 1, len(body), 1, arr], 0, True)
+        raw = head + W.pad(len(head), 8) + body
+        return raw, (lambda: message.parseMessage(raw, []))
+
+    def signature_as_string_array(k):
+        # header field 8 sent as an ARRAY OF STRINGS holding one oversized container signature
+        sig = 'a(' + '()' * k + 'y)'
+        nel = max(2, k // 8)
+        elems = b''.join(b'\x01' + (b'\0' * 7 if i < nel - 1 else b'') for i in range(nel))
+        body = struct.pack('<I', len(elems)) + b'\0' * 4 + elems
+        arr = [[1, W.Variant('o', '/o')], [3, W.Variant('s', 'M')], [8, W.Variant('as', [sig])]]
         head = W.encode('yyyyuua(yv)', [ord('l'), 1, 0, 1, len(body), 1, arr], 0, True)
         raw = head + W.pad(len(head), 8) + body
         return raw, (lambda: message.parseMessage(raw, []))
@@ -321,6 +376,7 @@ def growth_cases():
         return raw, (lambda: message.parseMessage(raw, []))
 
     for name, fam, scale in (('body signature sent as an oversized STRING header field', oversized_signature, 200), ('nested variants', nested_variants, 20),
+                             ('body signature sent as an array of strings', signature_as_string_array, 200),
                              ('variant whose inline signature runs past its declared length', lying_signature_length, 200),
                              ('message whose SIGNATURE header field runs past its declared length', lying_header_signature_length, 200),
                              ('array of strings', many_strings, 200), ('array of dict entries with variant values', many_dict_entries, 100)):
@@ -333,6 +389,44 @@ def growth_cases():
         if o2 == 'BUDGET' or s2 > 3 * s1 + 2000:
             return '%s: %d bytes take %d interpreter steps, %d bytes take %s%d (%s): more than proportional to the length' % (
                 name, len(d1), s1, len(d2), '> ' if o2 == 'BUDGET' else '', s2, o2), {'family': name, 'scales': [scale, 2 * scale]}
+    return None, None
+
+
+def retention_case():
+    """decoding leaves nothing behind: after a series of messages (valid ones, ones with unknown header fields carrying large
+    values, ones whose body is rejected) has been decoded and dropped, the memory still held is unrelated to how much was decoded"""
+    import gc, tracemalloc
+    from txdbus import message
+    from . import wire_ref as W
+    from .message_harness import ref_message
+    big = 'v' * 4000
+    msgs = []
+    for k in range(60):
+        extra = [(40 + k % 7, 's', big), (200, 'as', [big[:500]] * 4)]
+        msgs.append(ref_message(1, 0, k + 1, [(1, '/o'), (3, 'M')], 's', ['x'], k % 2 == 0, extra_fields=extra))
+        msgs.append(ref_message(4, 0, k + 1, [(1, '/o'), (2, 'a.b'), (3, 'S')], 'as', [[big[:300]] * 3], True, extra_fields=extra)[:-5])    # body cut short
+        msgs.append(message.SignalMessage('/a', 'Sig', 'org.x.Y', signature='ay', body=[bytearray(b'z' * 3000)]).rawMessage)
+
+    def run():
+        for raw in msgs:
+            try:
+                message.parseMessage(raw, [])
+            except Exception:
+                pass
+    run()                                  # warm-up: caches, interned strings, lazily imported modules
+    gc.collect()
+    tracemalloc.start()
+    try:
+        base = tracemalloc.get_traced_memory()[0]
+        for _ in range(3):
+            run()
+        gc.collect()
+        held = tracemalloc.get_traced_memory()[0] - base
+    finally:
+        tracemalloc.stop()
+    total = 3 * sum(len(m) for m in msgs)
+    if held > 64 * 1024:
+        return 'after decoding and dropping %d bytes of messages (unknown header fields with large values among them) %d bytes are still held' % (total, held), {'messages': len(msgs) * 3}
     return None, None
 
 
@@ -351,6 +445,10 @@ def bounded_(tier, seed):
 
     n += 1
     f, inp = growth_cases()
+    if f:
+        return n, f, inp
+    n += 1
+    f, inp = retention_case()
     if f:
         return n, f, inp
     # 1. hostile signatures against hostile data (unmarshal directly, as parseMessage does for the body)
@@ -393,6 +491,12 @@ def bounded_(tier, seed):
     # 3. whole messages: truncations and byte mutations, lying lengths
     msgs = valid_messages(rnd)
     per = 120 if tier == 'thorough' else 25
+    for data in long_name_cases():
+        n += 1
+        limit = budget_for(len(data), 255)
+        st, out = steps_of(lambda: message.parseMessage(data, []), limit)
+        if out in ('BUDGET', 'MemoryError'):
+            return fail('parseMessage(%d bytes naming long paths / names, one character replaced)' % len(data), {'raw': data.hex()}, st, 'no result within %d s' % WALL_S if st < 0 else out, limit)
     for raw in msgs:
         cases = [raw[:k] for k in range(0, len(raw), max(1, len(raw) // 24))]
         for _ in range(per):
